@@ -108,6 +108,7 @@ func (b *tqcache) DeleteBlock(ctx context.Context, k cid.Cid) error {
 		return nil
 	}
 
+	verifPoint("tq.miss")
 	b.lock(key, true)
 	defer b.unlock(key, true)
 
@@ -134,6 +135,7 @@ func (b *tqcache) Has(ctx context.Context, k cid.Cid) (bool, error) {
 		return has, nil
 	}
 
+	verifPoint("tq.miss")
 	b.lock(key, false)
 	defer b.unlock(key, false)
 
@@ -164,6 +166,7 @@ func (b *tqcache) GetSize(ctx context.Context, k cid.Cid) (int, error) {
 		// we have it but don't know the size, ask the datastore.
 	}
 
+	verifPoint("tq.miss")
 	b.lock(key, false)
 	defer b.unlock(key, false)
 
@@ -199,6 +202,7 @@ func (b *tqcache) View(ctx context.Context, k cid.Cid, callback func([]byte) err
 		return ipld.ErrNotFound{Cid: k}
 	}
 
+	verifPoint("tq.miss")
 	b.lock(key, false)
 	defer b.unlock(key, false)
 
@@ -231,6 +235,7 @@ func (b *tqcache) Get(ctx context.Context, k cid.Cid) (blocks.Block, error) {
 		return nil, ipld.ErrNotFound{Cid: k}
 	}
 
+	verifPoint("tq.miss")
 	b.lock(key, false)
 	defer b.unlock(key, false)
 
@@ -250,6 +255,7 @@ func (b *tqcache) Put(ctx context.Context, bl blocks.Block) error {
 		return nil
 	}
 
+	verifPoint("tq.miss")
 	b.lock(key, true)
 	defer b.unlock(key, true)
 
@@ -335,6 +341,7 @@ func (b *tqcache) PutMany(ctx context.Context, bs []blocks.Block) error {
 
 	good.sortAndDedup()
 
+	verifPoint("tq.miss")
 	for _, key := range good.keys {
 		b.lock(key, true)
 	}
